@@ -23,7 +23,7 @@ def race(test, batches=4, timeout=1200, **kw):
 PROPS = {
     "C01": dict(
         level="exploration",
-        rule="messages drawn from a PRNG keyed by (seed, case index) over 10 dictionary contexts (library default set, each embedded dictionary on top of base, a generated dictionary with all 18 type names): header with any flag byte / boundary ids, AVP trees to depth 6 with defined, vendor-specific and undefined codes; each case is built through NewMessage/NewAVP/AddAVP/InsertAVP, serialised, read back, compared (header, ordered tree, typed values) and serialised again, and its reference-encoded image is read and re-serialised. distinct_nontrivial counts distinct (dictionary, data type, payload length mod 4, nesting depth, V flag) classes of AVPs seen in the generated trees.",
+        rule="messages drawn from a PRNG keyed by (seed, case index) over 10 dictionary contexts (library default set, each embedded dictionary on top of base, a generated dictionary with all 18 type names): header with any flag byte / boundary ids, AVP trees to depth 6 with defined, vendor-specific and undefined codes; each case is built through NewMessage/NewAVP/AddAVP/InsertAVP (or with its groups assembled top-down: nested groups attached while still empty, the outer AVP sized in between, then filled), serialised, read back, compared (header, ordered tree, typed values) and serialised again, and its reference-encoded image is read and re-serialised. Further suites: chains of groups nested 7..120 deep, one AVP of 65 507 .. 1 MiB bytes (around the 64 KiB steps of the body reader), and the known-risk Address classes (wire direction). distinct_nontrivial counts distinct (dictionary, data type, payload length mod 4, nesting depth, V flag) classes of AVPs seen in the generated trees.",
         runs=dict(
             quick=[plain("TestC01", 8), race("TestC01", 2)],
             thorough=[plain("TestC01", 16, 3000), race("TestC01", 8, 3000)],
@@ -45,7 +45,7 @@ PROPS = {
     ),
     "C20": dict(
         level="exploration",
-        rule="AVP trees (dense trees over 6 codes with repeats at several depths, groups in groups, empty groups, undefined codes; and trees drawn from every dictionary context), built through the API or obtained by decoding, are queried with FindAVP / FindAVPs / FindAVPsWithPath by int, uint32 and name, for codes present, absent, undefined, with wildcard / exact / wrong vendor, alternating between two generated dictionaries in which the same names mean different codes; results are compared by pointer identity and order with a reference pre-order walk. distinct_nontrivial counts distinct (origin, query kind, query form, number of hits capped at 3, resolvable) and (path length, hits, resolvable) classes.",
+        rule="AVP trees (dense trees over 6 codes with repeats at several depths, groups in groups, empty groups, undefined codes; and trees drawn from every dictionary context), built through the API or obtained by decoding, are queried with FindAVP / FindAVPs / FindAVPsWithPath by int, uint32 and name, for codes present, absent, undefined, with wildcard / exact / wrong vendor, alternating between two generated dictionaries in which the same names mean different codes; results are compared by pointer identity and order with a reference pre-order walk, and the message's AVP tree must be untouched afterwards. distinct_nontrivial counts distinct (origin, query kind, query form, number of hits capped at 3, resolvable) and (path length, hits, resolvable) classes.",
         runs=dict(quick=[plain("TestC20", 8)], thorough=[plain("TestC20", 16, 3000)]),
         floor=dict(quick=20000, thorough=1000000),
         need_events=["queries", "path_queries"],
@@ -53,7 +53,7 @@ PROPS = {
     ),
     "C16": dict(
         level="exploration",
-        rule="Message.Answer over the header space: all 256 flag bytes x the 16 boundary identifier pairs {0,1,2^31,2^32-1}^2 plus random pairs, commands/applications of every dictionary context plus undefined ones, result codes 0 / 2xxx / 3xxx / 5xxx / random; every answer is serialised and checked field by field by the reference decoder. CEA (success and every error class) and DWA produced by the state machine, and the transport stream of replies on the in-memory SCTP association (streams 0..15 and 65535), are checked by the same mirror oracle. distinct_nontrivial counts distinct (identifier class, R, P, result-code-zero) classes and (source, stream) classes.",
+        rule="Message.Answer over the header space: all 256 flag bytes x the 16 boundary identifier pairs {0,1,2^31,2^32-1}^2 plus random pairs, commands/applications of every dictionary context plus undefined ones, result codes 0 / 2xxx / 3xxx / 5xxx / random; every answer is serialised and checked field by field by the reference decoder. CEA (success and every error class) and DWA produced by the state machine, and the transport stream of replies on the in-memory SCTP association (streams 0..15 and 65535; several DWRs with different flag bytes on different streams of one state machine; an answer written late from another goroutine after the reader moved on, incl. one that is resumed after a temporary transport error), are checked by the same mirror oracle. distinct_nontrivial counts distinct (identifier class, R, P, result-code-zero) classes and (source, stream) classes.",
         runs=dict(quick=[plain("TestC16", 8), race("TestC16Stream", 4)], thorough=[plain("TestC16", 16, 3000), race("TestC16Stream", 8, 3000)]),
         floor=dict(quick=2000, thorough=30000),
         need_events=["answers_checked", "stream_answers_checked"],
@@ -61,7 +61,7 @@ PROPS = {
     ),
     "C04": dict(
         level="exploration",
-        rule="message bodies assembled from raw (code, flags, vendor, declared length, payload) records under the generated and the default dictionary: fixed-width types with payloads of every length 0..20, Address payloads of every family class x length 0..20, string types and unknown codes whose payloads are runs of valid AVP images, grouped codes nested to depth 5, and one injected inconsistent length in a third of the cases (declared < 8, V flag with declared < 12, declared beyond / short of the actual bytes, 0xFFFFFF, length counting the padding). The reference framer walks the same bytes by declared length rounded up to 4, recursing where the dictionary says Grouped; the library's AVP list (count, order, code, flags, vendor, Length, payload where observable) must equal it, and mis-framed bodies must be rejected. distinct_nontrivial counts distinct (dictionary, record type, payload length / family class, depth) and (injection kind, outcome) classes.",
+        rule="message bodies assembled from raw (code, flags, vendor, declared length, payload) records under the generated and the default dictionary: fixed-width types with payloads of every length 0..20, Address payloads of every family class x length 0..20, string types and unknown codes whose payloads are runs of valid AVP images, grouped codes nested to depth 5 (plus chains 6..100 deep with a good or bad record at the bottom, and payloads of 65 527 .. 196 608 bytes whose length needs all 24 bits), and one injected inconsistent length in a third of the cases (declared < 8, V flag with declared < 12, declared beyond / short of the actual bytes, 0xFFFFFF, length counting the padding). The reference framer walks the same bytes by declared length rounded up to 4, recursing where the dictionary says Grouped; the library's AVP list (count, order, code, flags, vendor, Length, payload where observable) must equal it, and mis-framed bodies must be rejected. distinct_nontrivial counts distinct (dictionary, record type, payload length / family class, depth) and (injection kind, outcome) classes.",
         runs=dict(quick=[plain("TestC04", 8), race("TestC04", 2)], thorough=[plain("TestC04", 16, 3000), race("TestC04", 4, 3000)]),
         floor=dict(quick=50000, thorough=1000000),
         need_events=["wellframed_accepted_equal", "ref_misframed", "groups_direct"],
@@ -69,7 +69,7 @@ PROPS = {
     ),
     "C05": dict(
         level="exploration",
-        rule="sequences of 1..8 numbered messages with body sizes from {0,12,100,1000,1004,1008,1024,1028,4076,4096,65000} (below/at/above the 1 KiB pooled buffer and the 4 KiB bufio buffer) are concatenated and delivered to ReadMessage over a plain fragmenting reader (byte-exact consumption counter), over bufio, and to a real connection (diam.NewConn over the in-memory transport; thorough: loopback TCP): every 1-cut and 2-cut and every truncation point for short streams, random cut sets incl. all-1-byte reads and random truncation for long ones, every declared length 0..19 followed by more data, and one body above the 64 KiB growth step of the body reader (65 532 .. 200 000 bytes) placed first, in the middle or last among small messages. distinct_nontrivial counts distinct (stream shape, leading body sizes / message count / fragment count / declared length) classes.",
+        rule="sequences of 1..8 numbered messages with body sizes from {0,12,100,1000,1004,1008,1024,1028,4076,4096,65000} (below/at/above the 1 KiB pooled buffer and the 4 KiB bufio buffer) are concatenated and delivered to ReadMessage over a plain fragmenting reader (byte-exact consumption counter), over bufio, to a real connection (diam.NewConn over the in-memory transport; thorough: loopback TCP), to 2..4 connections reading at the same time with their fragments interleaved, and to a server with a read timeout where one pause exceeds the timeout inside a header / inside a body / between messages (incl. a message whose bytes from offset 16 on are themselves a well-formed message): every 1-cut and 2-cut and every truncation point for short streams, random cut sets incl. all-1-byte reads and random truncation for long ones, every declared length 0..19 followed by more data, and one body above the 64 KiB growth step of the body reader (65 532 .. 200 000 bytes) placed first, in the middle or last among small messages. distinct_nontrivial counts distinct (stream shape, leading body sizes / message count / fragment count / declared length) classes.",
         runs=dict(quick=[plain("TestC05", 8), race("TestC05", 2, env={"VERIF_C05_RACE": 1})], thorough=[plain("TestC05", 16, 3000), race("TestC05", 4, 3000)]),
         floor=dict(quick=3000, thorough=100000),
         need_events=["streams_checked", "short_lengths_rejected", "conn_streams"],
@@ -77,7 +77,7 @@ PROPS = {
     ),
     "C06": dict(
         level="exploration",
-        rule="histories 'read M1; snapshot; read M2..Mk; compare': M1 is drawn over the data types that could be views into the input (Address incl. vendor-specific, IPv4, IPv6, unknown AVPs with and without vendor, OctetString, groups nested to depth 3 containing them), body below and above the 1 KiB pooled buffer; M2..Mk have the same layout with different bytes and are read on the same reader, another reader, another goroutine, or concurrently with a goroutine that keeps re-rendering M1 (race build: any write into memory reachable from a returned message is a reported data race); plus a handler on a real connection that keeps every message and re-renders it after the rest arrived. GC is disabled during plain-build histories so that pooled buffers are really reused. distinct_nontrivial counts distinct (data type, depth, big, mode) classes.",
+        rule="histories 'read M1; snapshot; read M2..Mk; compare': M1 is drawn over the data types that could be views into the input (Address incl. vendor-specific, IPv4, IPv6, unknown AVPs with and without vendor, OctetString, groups nested to depth 3 containing them), body below and above the 1 KiB pooled buffer; M2..Mk have the same layout with different bytes and are read - and written out again, as a relay does - on the same reader, another reader, another goroutine, or concurrently with a goroutine that keeps re-rendering M1 (race build: any write into memory reachable from a returned message is a reported data race); plus a handler on a real connection that keeps every message and re-renders it after the rest arrived. GC is disabled during plain-build histories so that pooled buffers are really reused. distinct_nontrivial counts distinct (data type, depth, big, mode) classes.",
         runs=dict(quick=[plain("TestC06", 8), race("TestC06", 4)], thorough=[plain("TestC06", 16, 3000), race("TestC06", 8, 3000)]),
         floor=dict(quick=10000, thorough=300000),
         need_events=["histories_checked", "conn_histories"],
@@ -95,7 +95,7 @@ PROPS = {
     ),
     "C17": dict(
         level="exploration",
-        rule="(a) exhaustively for every AVP definition of every dictionary context (library default set, each embedded file on base, generated): lookups by uint32, int and name for 11 application ids (own, children 16777251/16777238 -> 4 -> 1 -> 0, unrelated, undefined) x 4 vendors (own, wildcard, 0, foreign) x codes {c, c+1, c-1}, compared entry by entry with the reference resolver (and on a sample with a second, scan-based reference); every command x 12 applications and every application id x {no type, auth, acct, other}; (b) generated dictionary sets of 2..4 files (overlapping application ids incl. the static parent map, same code with different vendors, names redefined, same key in later files, typed and untyped applications) loaded in every order, with 245 keys + commands + applications re-queried after each load (reference comparison and monotonicity); (c) every type name in datatype.Available declared, encoded through the API and decoded through ReadMessage; (d) the compiled constants of diam/avp/codes.go, diam/commands.go and diam/applications.go against the embedded XML under autogen.sh's naming rule. distinct_nontrivial counts distinct (dictionary, type, application relation, resolved) classes plus per-suite classes.",
+        rule="(a) exhaustively for every AVP definition of every dictionary context (library default set, each embedded file on base, generated): lookups by uint32, int and name for 11 application ids (own, children 16777251/16777238 -> 4 -> 1 -> 0, unrelated, undefined) x 4 vendors (own, wildcard, 0, foreign) x codes {c, c+1, c-1}, compared entry by entry with the reference resolver (and on a sample with a second, scan-based reference); every command x 12 applications and every application id x {no type, auth, acct, other}; (b) generated dictionary sets of 2..4 files (overlapping application ids incl. the static parent map, same code with different vendors, names redefined, same key in later files, typed and untyped applications) loaded in every order, with 245 keys + commands + applications re-queried after each load (reference comparison and monotonicity), followed by two loads that fail part-way (unsupported type after restated definitions; a file loaded twice) after which everything that resolved must still resolve; (c) every type name in datatype.Available declared, encoded through the API and decoded through ReadMessage; (d) the compiled constants of diam/avp/codes.go, diam/commands.go and diam/applications.go against the embedded XML under autogen.sh's naming rule. distinct_nontrivial counts distinct (dictionary, type, application relation, resolved) classes plus per-suite classes.",
         runs=dict(quick=[plain("TestC17", 8)], thorough=[plain("TestC17", 16, 3000)]),
         floor=dict(quick=1000, thorough=5000),
         need_events=["lookups", "load_orders", "type_roundtrips", "avp_constants_checked"],
@@ -111,7 +111,7 @@ PROPS = {
     ),
     "C07": dict(
         level="fault_enumeration",
-        rule="(a) W in {1,2,3,8,32} goroutines each write numbered messages (sizes 60..20000 bytes, below and above the 1 KiB serialisation buffer and the 4 KiB write buffer) to one diam.Conn over an in-memory transport that stalls at a pseudo-random byte position inside two thirds of its Write calls; the transport's byte log is framed by the reference codec and checked offline: only whole messages, each successful write exactly once, fillers intact, per-writer order; run on the plain scheduler (GOMAXPROCS 16 and 2) and under the race detector; a third of the runs use a transport whose Write is not atomic per call (200-byte chunks, other writers may get in between), and a further suite writes over a real loopback TCP socket. (b) every script of up to 3 (thorough 4) outcomes (k bytes accepted, temporary error) with k in {0,1,19,20,21,len-1}, ended by success or a permanent error, x retry budgets {temps-1, temps, temps+1}, for WriteToWithRetry on a plain io.Writer, through a diam.Conn with a 44-byte and a 5000-byte message (and through the SCTP backend): bytes received must be exactly the accepted prefixes of the remaining bytes, never a byte range twice, n = bytes accepted, error class as scripted. distinct_nontrivial counts distinct writer counts, interleaving fingerprints (hash of the writer order on the wire mod 4096) and (path, temps, budget, ending) classes.",
+        rule="(a) W in {1,2,3,8,32} goroutines each write numbered messages through one of three entry points (WriteTo of a fresh message, WriteToStream on stream 0 like an answer, WriteToStreamWithRetry on another stream) (sizes 60..20000 bytes, below and above the 1 KiB serialisation buffer and the 4 KiB write buffer) to one diam.Conn over an in-memory transport that stalls at a pseudo-random byte position inside two thirds of its Write calls; the transport's byte log is framed by the reference codec and checked offline: only whole messages, each successful write exactly once, fillers intact, per-writer order; run on the plain scheduler (GOMAXPROCS 16 and 2) and under the race detector; a third of the runs use a transport whose Write is not atomic per call (200-byte chunks, other writers may get in between), and a further suite writes over a real loopback TCP socket. (b) every script of up to 3 (thorough 4) outcomes (k bytes accepted, temporary error) with k in {0,1,19,20,21,len-1}, ended by success or a permanent error, x retry budgets {temps-1, temps, temps+1}, for WriteToWithRetry on a plain io.Writer, through a diam.Conn with a 44-byte and a 5000-byte message (and through the SCTP backend): bytes received must be exactly the accepted prefixes of the remaining bytes, never a byte range twice, n = bytes accepted, error class as scripted. distinct_nontrivial counts distinct writer counts, interleaving fingerprints (hash of the writer order on the wire mod 4096) and (path, temps, budget, ending) classes.",
         runs=dict(quick=[plain("TestC07", 8), plain("TestC07", 2, gomaxprocs=2, env={"VERIF_C07_PART": "a"}), race("TestC07", 4)],
                   thorough=[plain("TestC07", 16, 3000), plain("TestC07", 4, 3000, gomaxprocs=2), race("TestC07", 8, 3000)]),
         floor=dict(quick=500, thorough=10000),
@@ -120,7 +120,7 @@ PROPS = {
     ),
     "C08": dict(
         level="exploration",
-        rule="scenarios inside testing/synctest bubbles (virtual clock, quiescence detection): K in {1,3,5} connections accepted by Server.Serve over a scripted listener or wrapped with diam.NewConn, the handler being a plain function or a shared ServeMux with handlers registered by short name for three commands, each connection receiving 1..12 (a quarter of the scenarios: 33..122) numbered requests as one burst, one byte at a time, or as 37-byte fragments interleaved across the connections; handlers return at once, sleep (virtual time), or one handler blocks until the scenario releases it. Online monitor per connection: in-flight counter at handler entry must be 0 and the sequence number must be previous+1; with one handler held, every other connection must have all its messages dispatched at quiescence and the held connection none beyond the held one. distinct_nontrivial counts distinct (K, accepted/dialled, arrival pattern, handler kind, mux, long burst) classes and distinct interleaving fingerprints (hash of the order of handler entries across connections, mod 4096).",
+        rule="scenarios inside testing/synctest bubbles (virtual clock, quiescence detection): K in {1,3,5} connections accepted by Server.Serve over a scripted listener or wrapped with diam.NewConn, the handler being a plain function or a shared ServeMux with handlers registered by short name for three commands, each connection receiving 1..12 (a quarter of the scenarios: 33..122) numbered requests as one burst, one byte at a time, or as 37-byte fragments interleaved across the connections; handlers return at once, sleep (virtual time), or one handler blocks until the scenario releases it. Online monitor per connection: the message handed to the handler is byte for byte the one sent on that connection, in-flight counter at handler entry must be 0 and the sequence number must be previous+1; with one handler held, every other connection must have all its messages dispatched at quiescence and the held connection none beyond the held one. distinct_nontrivial counts distinct (K, accepted/dialled, arrival pattern, handler kind, mux, long burst) classes and distinct interleaving fingerprints (hash of the order of handler entries across connections, mod 4096).",
         runs=dict(quick=[race("TestC08", 8)], thorough=[race("TestC08", 16, 3000), plain("TestC08", 8, 3000)]),
         floor=dict(quick=400, thorough=20000),
         need_events=["handler_invocations", "blocked_handler_scenarios"],
@@ -136,7 +136,7 @@ PROPS = {
     ),
     "C11": dict(
         level="exploration",
-        rule="end to end through Server + StateMachine over the in-memory transport inside synctest bubbles: the exhaustive product of Origin-Host {absent,present} x Origin-Realm {absent,present} x Inband-Security-Id {absent,0,1} x every sequence of length 0..3 (thorough 0..4) over 13 application AVPs {Acct 3, Acct 4 (wrong type), Acct 999, Acct relay, Auth 4, Auth 3 (wrong type), Auth 999, Auth relay, VS{vendor,Auth 4}, VS{vendor,Auth 999}, VS{vendor,Acct 3}, VS{vendor only}, VS{Auth 999,Auth 4}} with the in-band AVP placed at varying positions, rotating 0/1/2 configured host addresses, IPv4/IPv6 local endpoint and zero identifiers; then random multisets up to 12. CER and CEA are built / parsed by the reference codec; the acceptance predicate and the shared application set are computed from the dictionary XML by the harness; a gated probe handler reads the connection metadata. distinct_nontrivial counts distinct (host, realm, in-band, number of application AVPs) classes.",
+        rule="end to end through Server + StateMachine over the in-memory transport inside synctest bubbles: the exhaustive product of Origin-Host {absent,present} x Origin-Realm {absent,present} x Inband-Security-Id {absent,0,1} x every sequence of length 0..3 (thorough 0..4) over 13 application AVPs {Acct 3, Acct 4 (wrong type), Acct 999, Acct relay, Auth 4, Auth 3 (wrong type), Auth 999, Auth relay, VS{vendor,Auth 4}, VS{vendor,Auth 999}, VS{vendor,Acct 3}, VS{vendor only}, VS{Auth 999,Auth 4}} with the in-band AVP placed at varying positions, rotating 0/1/2 configured host addresses, IPv4/IPv6 local endpoint and zero identifiers; then random multisets up to 12; then 2 x 24 scenarios with four peers on one state machine in every order, each from another local endpoint (IPv4 / IPv6) and with other applications, every connection's metadata re-read after each later handshake; and (own process) a local dictionary that declares one application id with two types. CER and CEA are built / parsed by the reference codec; the acceptance predicate and the shared application set are computed from the dictionary XML by the harness; a gated probe handler reads the connection metadata. distinct_nontrivial counts distinct (host, realm, in-band, number of application AVPs) classes.",
         runs=dict(quick=[race("TestC11", 12), race("TestC11Dict", 2)], thorough=[race("TestC11", 16, 6000), race("TestC11Dict", 2)]),
         floor=dict(quick=20000, thorough=300000),
         need_events=["accepted", "rejected"],
@@ -152,7 +152,7 @@ PROPS = {
     ),
     "C12": dict(
         level="fault_enumeration",
-        rule="sm.Client.NewConn over the in-memory transport against scripted peers under synctest's virtual clock: the product of MaxRetransmits N in {0..3} x RetransmitInterval {1 s, 2.5 s} x the CER index k in {never, 1..N+2} that gets the reply x reply kind {success CEA sharing an advertised application, failing result code, no Result-Code, no Origin-Host, success without application, success with an application unknown to the dictionary (plain and inside a vendor-specific group after the Vendor-Id), disconnect} x reply delay {0, interval/2, interval-1ms}; transports with back-pressure where the Write of a CER returns 0.5 / 1.5 / 3 intervals after the peer saw the bytes and the success CEA arrives meanwhile or shortly after; every successful script is continued with every sequence of 0..3 extra CEAs over {duplicate success, late failure, malformed} and then an application answer; client configurations rotate over 0..3 advertised application kinds, 0/1/2 configured addresses and IPv4/IPv6 local endpoints. Oracle: CER count <= N+1, byte-identical, Write entries >= interval apart (virtual time), identity / addresses / applications as configured; dial outcome and error class as scripted; transport closed iff failure; after success close count 0 and the answer dispatched exactly once; no reader panic in the log; no goroutine left at the end of the bubble. distinct_nontrivial counts distinct (N, k, reply kind, number of extra CEAs) classes.",
+        rule="sm.Client.NewConn over the in-memory transport against scripted peers under synctest's virtual clock: the product of MaxRetransmits N in {0..3} x RetransmitInterval {1 s, 2.5 s} x the CER index k in {never, 1..N+2} that gets the reply x reply kind {success CEA sharing an advertised application, failing result code, no Result-Code, no Origin-Host, success without application, success with an application unknown to the dictionary (plain and inside a vendor-specific group after the Vendor-Id), disconnect} x reply delay {0, interval/2, interval-1ms}; transports with back-pressure where the Write of a CER returns 0.5 / 1.5 / 3 intervals after the peer saw the bytes and the success CEA arrives meanwhile or shortly after; every successful script is continued with every sequence of 0..3 extra CEAs over {duplicate success, late failure, malformed} and then an application answer; the same client dialling a second peer while the first peer repeats its CEA into that handshake; client configurations rotate over 0..3 advertised application kinds, 0/1/2 configured addresses and IPv4/IPv6 local endpoints. Oracle: CER count <= N+1, byte-identical, Write entries >= interval apart (virtual time), identity / addresses / applications as configured; dial outcome and error class as scripted; transport closed iff failure; after success close count 0 and the answer dispatched exactly once; no reader panic in the log; no goroutine left at the end of the bubble. distinct_nontrivial counts distinct (N, k, reply kind, number of extra CEAs) classes.",
         runs=dict(quick=[race("TestC12", 12)], thorough=[race("TestC12", 16, 6000), plain("TestC12", 8, 3000)]),
         floor=dict(quick=2000, thorough=4000),
         need_events=["successful_handshakes", "failed_handshakes", "extra_ceas"],
@@ -160,7 +160,7 @@ PROPS = {
     ),
     "C13": dict(
         level="fault_enumeration",
-        rule="client role under synctest's virtual clock, after a scripted handshake with EnableWatchdog: the product of MaxRetransmits N in {0..3} x (WatchdogInterval, RetransmitInterval) in {(5 s,1 s),(2 s,3 s)} x transport schedule {answer queued at once, the client's Write returns 10 ms after the peer saw the bytes with the answer arriving in between, answer 1 ms before the retransmit timer} x peer pattern {answer every DWR for 30 periods, stop after the n-th round n=0..3, answer only the j-th transmission of every round j=0..N+1, answer with a failing result code}. Oracle over the transport's write log in virtual time: first DWR >= WatchdogInterval after the handshake, every round >= WatchdogInterval after the previous one ended, retransmissions byte-identical, >= RetransmitInterval apart, exactly N of them when unanswered, then Close (>= RetransmitInterval later) and no further writes or library goroutines; with every DWR answered in time the close count stays 0 and at least floor(H/(W+round))-1 rounds happen within the horizon H (bounded progress). Server role: DWRs with boundary identifiers, with/without Origin-State-Id and P bit to a handshaken state machine: exactly one DWA each, Result-Code 2001, local identity, mirrored header. distinct_nontrivial counts distinct (N, pattern, schedule, W>R) classes.",
+        rule="client role under synctest's virtual clock, after a scripted handshake with EnableWatchdog: the product of MaxRetransmits N in {0..3} x (WatchdogInterval, RetransmitInterval) in {(5 s,1 s),(2 s,3 s)} x transport schedule {answer queued at once, the client's Write returns 10 ms after the peer saw the bytes with the answer arriving in between, answer 1 ms before the retransmit timer} x peer pattern {answer every DWR for 30 periods, stop after the n-th round n=0..3, answer only the j-th transmission of every round j=0..N+1, answer with a failing result code}. Oracle over the transport's write log in virtual time: first DWR >= WatchdogInterval after the handshake, every round >= WatchdogInterval after the previous one ended, retransmissions byte-identical, >= RetransmitInterval apart, exactly N of them when unanswered, then Close (>= RetransmitInterval later) and no further writes or library goroutines; with every DWR answered in time the close count stays 0 and at least floor(H/(W+round))-1 rounds happen within the horizon H (bounded progress). Server role: 2..6 handshaken connections on one state machine pipelining 40 DWRs each at the same moment (race detector + per-answer mirror check); DWRs with boundary identifiers, with/without Origin-State-Id and P bit to a handshaken state machine: exactly one DWA each, Result-Code 2001, local identity, mirrored header. distinct_nontrivial counts distinct (N, pattern, schedule, W>R) classes.",
         runs=dict(quick=[race("TestC13", 12)], thorough=[race("TestC13", 16, 6000), plain("TestC13", 8, 3000)]),
         floor=dict(quick=800, thorough=8000),
         need_events=["silent_peer_detected", "responsive_peer_spared", "dwas_checked"],
@@ -168,7 +168,7 @@ PROPS = {
     ),
     "C14": dict(
         level="fault_enumeration",
-        rule="every ordering pre + termination + post with pre over {F deliver a fragment (fragments cut three numbered messages inside message boundaries), h arm CloseNotify in the next handler invocation, o CloseNotify from another goroutine while the reader is blocked} with at most 4 F and 3 notifier requests in total, termination in {peer EOF, transport read error, undecodable message, undecodable message with more data in flight behind it, local Close, and EOF / read error returned by the same Read that returns the last bytes of a message}, post = CloseNotify requested after the termination (0..3 times): each ordering is executed inside a synctest bubble with quiescence between events, so the ordering is the schedule; the same orderings are also fired without quiescence points (racing) under the race detector; plus a real-scheduler stress suite (no bubble) in which four goroutines request CloseNotify with a swept delay exactly while the connection terminates (100 k rounds per quick run; a round that does not finish is decided by the goroutine dump); plus sm.Client with the watchdog enabled (the watchdog goroutine is itself a CloseNotify user) x 5 terminations x 0..2 completed watchdog exchanges. Oracle: no obtained channel closed at any quiescent point before the termination, every obtained channel closed at quiescence after it, no 'panic serving' in the captured log, handler log = the messages completely delivered before the termination in order, transport closed, and no goroutine with library frames left (goroutine dump at quiescence, after advancing virtual time past the watchdog interval). distinct_nontrivial counts distinct (termination, #F, #h, #o, #t) classes.",
+        rule="every ordering pre + termination + post with pre over {F deliver a fragment (fragments cut three numbered messages inside message boundaries), h arm CloseNotify in the next handler invocation, o CloseNotify from another goroutine while the reader is blocked} with at most 4 F and 3 notifier requests in total, termination in {peer EOF, transport read error, undecodable message, undecodable message with more data in flight behind it, local Close, EOF / read error returned by the same Read that returns the last bytes of a message, and a handler panic}, optionally with one write that meets a temporary transport error and is resumed (the connection stays up: no channel may be closed), post = CloseNotify requested after the termination (0..3 times): each ordering is executed inside a synctest bubble with quiescence between events, so the ordering is the schedule; the same orderings are also fired without quiescence points (racing) under the race detector; plus a real-scheduler stress suite (no bubble) in which four goroutines request CloseNotify with a swept delay exactly while the connection terminates (100 k rounds per quick run; a round that does not finish is decided by the goroutine dump); plus sm.Client with the watchdog enabled (the watchdog goroutine is itself a CloseNotify user) x 5 terminations x 0..2 completed watchdog exchanges. Oracle: no obtained channel closed at any quiescent point before the termination, every obtained channel closed at quiescence after it, no 'panic serving' in the captured log, handler log = the messages completely delivered before the termination in order, transport closed, and no goroutine with library frames left (goroutine dump at quiescence, after advancing virtual time past the watchdog interval). distinct_nontrivial counts distinct (termination, #F, #h, #o, #t) classes.",
         runs=dict(quick=[race("TestC14", 12)], thorough=[race("TestC14", 16, 6000), plain("TestC14", 8, 3000)]),
         floor=dict(quick=4000, thorough=50000),
         need_events=["orderings", "channels_checked", "client_watchdog_scenarios"],
@@ -176,7 +176,7 @@ PROPS = {
     ),
     "C15": dict(
         level="fault_enumeration",
-        rule="Server.Serve over a scripted in-memory listener inside synctest bubbles: K in {2,3} connections x 3 numbered requests with one fault at every (connection, position 0..3) x {handler panic, undecodable message, disconnect on a message boundary, disconnect inside a message}; 1..4 temporary Accept errors in a row at every position of the accept sequence, alone and combined with a fault; then random scenarios with K up to 5, up to two faults and accept errors. After the faults the application registers one more handler on the shared mux and a new connection is opened. Oracle at quiescence (virtual time absorbs the accept back-off): every request on a healthy connection and every request before the fault on a faulty one is answered (matched by hop-by-hop id), faulty transports are closed and healthy ones are not, one error report is readable iff undecodable input occurred, the post-fault connection is accepted and served, Serve has not returned, 'panic serving' is logged iff a handler panic was scripted. distinct_nontrivial counts distinct (K, fault kind, accept errors) classes.",
+        rule="Server.Serve over a scripted in-memory listener inside synctest bubbles: K in {2,3} connections x 3 numbered requests with one fault at every (connection, position 0..3) x {handler panic, undecodable message, disconnect on a message boundary, disconnect inside a message}; a TLS connection whose peer stalls inside the handshake record at every accept position; 1..4 temporary Accept errors in a row at every position of the accept sequence, alone and combined with a fault; then random scenarios with K up to 5, up to two faults and accept errors. After the faults the application registers one more handler on the shared mux and a new connection is opened. Oracle at quiescence (virtual time absorbs the accept back-off): every request on a healthy connection and every request before the fault on a faulty one is answered (matched by hop-by-hop id), faulty transports are closed and healthy ones are not, one error report is readable iff undecodable input occurred, the post-fault connection is accepted and served, Serve has not returned, 'panic serving' is logged iff a handler panic was scripted. distinct_nontrivial counts distinct (K, fault kind, accept errors) classes.",
         runs=dict(quick=[race("TestC15", 8)], thorough=[race("TestC15", 16, 6000)]),
         floor=dict(quick=600, thorough=10000),
         need_events=["scenarios", "faults_injected", "answers_matched"],
@@ -184,7 +184,7 @@ PROPS = {
     ),
     "C19": dict(
         level="exploration",
-        rule="through the verif hook: an in-memory SCTP association (per-read stream tag, partial delivery) consumed exactly as in production by diam.NewConn(VerifNewSCTPConn(backend)) -> conn.serve -> ReadMessage. Small cases (1..3 streams out of 0..15 and 65535, 1..2 numbered messages each, up to 8 chunks in total, cuts inside headers, on boundaries and spanning messages): every interleaving of the per-stream chunk sequences, each delivered both chunk by chunk with quiescence in between and all at once; large cases (up to 16 streams, 6 messages of 20..5020 bytes per stream): random interleavings. Oracle: per stream the handler's log equals the sent ids in order, exactly once, with intact bytes and the sending stream as MessageStream(); every request gets exactly one SCTPWrite carrying one whole answer on the request's stream with the Diameter PPID; at every quiescent point VerifCheckStreams (heap order by buffered length, idx consistency, map/heap agreement, under the demultiplexer's own mutex) and conservation (delivered - handled - buffered >= 0 per stream, > 0 for at most one stream, all zero at the end); CloseNotify's error handler installed concurrently with reads and its channel closed after EOF; a third of the runs answer later, in reverse order, from four goroutines at once. distinct_nontrivial counts distinct (size class, number of streams, number of chunks) classes and distinct delivery-order fingerprints (hash of the order in which the handler saw (stream, id), mod 4096).",
+        rule="through the verif hook: an in-memory SCTP association (per-read stream tag, partial delivery) consumed exactly as in production by diam.NewConn(VerifNewSCTPConn(backend)) -> conn.serve -> ReadMessage. Small cases (1..3 streams out of 0..15 and 65535, 1..2 numbered messages each, up to 8 chunks in total, cuts inside headers, on boundaries and spanning messages): every interleaving of the per-stream chunk sequences, each delivered both chunk by chunk with quiescence in between and all at once; large cases (up to 16 streams, 6 messages of 20..5020 bytes per stream): random interleavings. Oracle: per stream the handler's log equals the sent ids in order, exactly once, with intact bytes and the sending stream as MessageStream(); every request gets exactly one SCTPWrite carrying one whole answer on the request's stream with the Diameter PPID; at every quiescent point VerifCheckStreams (heap order by buffered length, idx consistency, map/heap agreement, under the demultiplexer's own mutex) and conservation (delivered - handled - buffered >= 0 per stream, > 0 for at most one stream, all zero at the end); CloseNotify's error handler installed concurrently with reads and its channel closed after EOF; a third of the runs answer later, in reverse order, from four goroutines at once, the first of those answers being resumed after a temporary transport error. distinct_nontrivial counts distinct (size class, number of streams, number of chunks) classes and distinct delivery-order fingerprints (hash of the order in which the handler saw (stream, id), mod 4096).",
         runs=dict(quick=[race("TestC19", 12)], thorough=[race("TestC19", 16, 6000)]),
         floor=dict(quick=500, thorough=20000),
         need_events=["merges", "exhaustive_small_cases", "quiescent_points", "replies_checked"],
